@@ -284,3 +284,25 @@ def near_background(rnd):
     d = rnd.choice([3, 6, 10, 16, 25, 40])
     t = tuple(min(255, max(0, v + rnd.randint(-d, d))) for v in bg)
     return t, bg
+
+
+def saturated(rnd):
+    """a colour near the gamut edge: one channel near 0, one high."""
+    ch = [rnd.randrange(0, 20), rnd.randrange(120, 256), rnd.randrange(256)]
+    rnd.shuffle(ch)
+    return tuple(ch)
+
+
+def isoluminant(rnd, tries=4000):
+    """low-contrast pair of different hues whose WCAG-luminance order is the OPPOSITE of their OKLCH-lightness order:
+    the situation in which any lightness-based direction rule can walk the text towards and across the background."""
+    for _ in range(tries):
+        a, b = saturated(rnd), saturated(rnd)
+        r = refs.wcag_ratio(a, b)
+        if r > 1.4 or a == b:
+            continue
+        la, lb = refs.wcag_lum(a), refs.wcag_lum(b)
+        La, Lb = refs.rgb_to_oklch(a)[0], refs.rgb_to_oklch(b)[0]
+        if (la - lb) * (La - Lb) < 0:
+            return a, b
+    return saturated(rnd), saturated(rnd)
